@@ -52,7 +52,8 @@ def build_ir(wd, tus, shims):
         src = os.path.join(REPO, TUS[t]); jobs.append((src, os.path.join(wd, t + '.ll')))
     def one(j):
         src, out = j
-        rc, o = _run(['clang++-14'] + IRFLAGS + ['-I' + os.path.join(VERIF, 'shims'), src, '-o', out])
+        if src.endswith('.c'): rc, o = _run(['clang-14', '-std=gnu99', '-O1', '-fno-vectorize', '-fno-slp-vectorize', '-fno-unroll-loops', '-S', '-emit-llvm', '-w', '-I' + REPO, '-I' + REPO + '/kerl', src, '-o', out])
+        else: rc, o = _run(['clang++-14'] + IRFLAGS + ['-I' + os.path.join(VERIF, 'shims'), src, '-o', out])
         return rc, o, src
     with cf.ThreadPoolExecutor(16) as ex:
         for rc, o, src in ex.map(one, jobs):
